@@ -88,3 +88,6 @@ OBLIGATIONS.append(Obl("long_strings", long_strings, {"kind": I(0, 5), "size": I
                        shards=[{"kind": C(k), "der": C(d)} for k in range(4) for d in (False, True)] +
                               [{"kind": C(k), "der": C(d), "size": C(z), "x": C(0), "pos": C(0)} for k in (4, 5) for d in (False, True) for z in range(4)], budget=120, per_path=60,
                        doc="strings of 999/1000/1001/2001 octets through DER and CER and every wider decoder"))
+
+# exponent-octet sign boundaries of binary REALs (third sensitivity round): cheap, so also in the quick tier here
+promote(OBLIGATIONS, ["real_exp"])
